@@ -21,6 +21,17 @@ def run():
     c.deductive(QUALS)
     n = 24 if c.tier == "quick" else 400
     files = corpus.sample(n, c.seed + 14)
+    # directed inputs (always): several violations of one rule with the same solution on one line, tight spacing, a case statement
+    import tempfile
+
+    from bounded import designs
+
+    ddir = tempfile.mkdtemp(prefix="c14d_")
+    for nm in ("repeated_on_one_line", "tight_spacing", "case_align", "nested_record_names"):
+        pth = os.path.join(ddir, "gen_%s.vhd" % nm)
+        with open(pth, "w") as fh:
+            fh.write(designs.all_designs()[nm])
+        files.append(pth)
     res = corpus.pmap(cli.c14_case, [(f, c.seed * 1000 + i) for i, f in enumerate(files)], chunksize=1)
     c.bounded["report_formats"] = {"evaluations": 3 * len(res), "distinct_nontrivial": len(res), "rule": "corpus file x seeded severity configuration (built-in, user-defined error type, user-defined warning type, mixed, warnings only): 3 CLI runs producing 6 report formats; every file/configuration pair is distinct"}
     for p, mode, probs in res:
@@ -31,6 +42,9 @@ def run():
             kind = "quality_report_critical_count" if why.startswith("quality report marks") else "traceback" if why.startswith("traceback") else "formats"
             rel = os.path.relpath(p, corpus.REPO)
             c.findings.append(Finding("bounded", "reports:" + kind, "%s [%s]: %s" % (rel, mode, why), {"file": p, "severity_mode": mode, "observed": why}, "%s|%s" % (rel, mode)))
+    import shutil
+
+    shutil.rmtree(ddir, ignore_errors=True)
     if c.tier == "thorough":
         from pyvc.checklib import run_selftest
 
